@@ -85,19 +85,34 @@ def lines_equal(f1, f2):
     return z3.And(*parts) if parts else z3.BoolVal(True)
 
 
-def task_shape(nblocks, nvars, por, perm, seq, timing, reset, cycles=2):
+def _witness(m, shape, names, data, tm):
+    blocks = []
+    for nm, (vs, po, ks, ns, na) in zip(names, data):
+        blocks.append(dict(name=''.join(chr(sym.model_value(m, ch.code)) for ch in nm.cells),
+                           variables=[sym.model_value(m, v.e) for v in vs],
+                           porosity=None if po is None else sym.model_value(m, po.e),
+                           permeability=None if ks is None else [sym.model_value(m, k.e) for k in ks],
+                           nseq=None if ns is None else sym.model_value(m, ns.e),
+                           nadd=None if na is None else sym.model_value(m, na.e)))
+    t = None
+    if tm: t = {k: sym.model_value(m, v.e) for k, v in tm.items()}
+    return dict(shape=shape, blocks=blocks, timing=t)
+
+
+def task_shape(nblocks, nvars, por, perm, seq, timing, reset, cycles=2, toughreact=None):
     ld, fs = _load()
     T = ld.t2incons
     np_ = ld.mulgrids.np
     failures, samples, distinct = [], [], set()
-    shape = dict(nblocks=nblocks, nvars=nvars, por=por, perm=perm, seq=seq, timing=timing, reset=reset)
-    tag = 'b%d.v%d.%s%s%s.%s%s' % (nblocks, nvars, 'P' if por else 'p', 'K' if perm else 'k', 'S' if seq else 's',
+    shape = dict(nblocks=nblocks, nvars=nvars, por=por, perm=perm, seq=seq, timing=timing, reset=reset, toughreact=toughreact)
+    tag = ('R.' if (toughreact and not perm) else '') + 'b%d.v%d.%s%s%s.%s%s' % (nblocks, nvars, 'P' if por else 'p', 'K' if perm else 'k', 'S' if seq else 's',
                                    'T' if timing else 't', 'R' if reset else 'r')
 
     def h(c):
         fs.files.clear()
         inc = T.t2incon()
-        if perm: inc.simulator = 'TOUGHREACT'
+        tr_flavour = perm if toughreact is None else toughreact
+        if tr_flavour: inc.simulator = 'TOUGHREACT'
         names, data = [], []
         for b in range(nblocks):
             nm = sym_blockname(c, 'n%d' % b)
@@ -113,7 +128,7 @@ def task_shape(nblocks, nvars, por, perm, seq, timing, reset, cycles=2):
             inc[nm] = T.t2blockincon(vs, nm, po, ks, ns, na)
         tm = None
         if timing:
-            wk = 6 if perm else 5
+            wk = 6 if tr_flavour else 5
             tm = dict(kcyc=c.int('kcyc', 0, 10 ** wk - 1), iter=c.int('iter', 0, 10 ** wk - 1),
                       nm=c.int('nm', 0, 999), tstart=fit_real(c, 'tstart', 'e', 15, 9),
                       sumtim=fit_real(c, 'sumtim', 'e', 12, 6))
@@ -132,9 +147,20 @@ def task_shape(nblocks, nvars, por, perm, seq, timing, reset, cycles=2):
         if r0 != 'sat':
             c.prove(False, 'preconditions satisfiable (vacuity)')
             return 'vacuous'
-        inc.write('f1', reset)
         nv = nvars if nvars > 4 else None
-        inc2 = T.t2incon('f1', num_variables=nv)
+        try:
+            inc.write('f1', reset)
+            inc2 = T.t2incon('f1', num_variables=nv)
+        except Exception as ex:
+            # a write or read that raises on a valid set of initial conditions
+            r, m = c.reachable()
+            c.prove(False, 'exception: write/read raised %s' % type(ex).__name__)
+            if r == 'sat':
+                c.failures[-1]['model'] = m
+                failures.append(dict(key='exception/%s/%s' % (type(ex).__name__, tag), what='write/read raised %s: %s (%s)' % (type(ex).__name__, str(ex)[:80], tag),
+                                     replay=None))
+                failures[-1]['replay'] = _witness(m, shape, names, data, tm)
+            return 'checked'
 
         def ob(f, label, key, witness=None):
             if isinstance(f, SBool): f = f.e
@@ -165,7 +191,10 @@ def task_shape(nblocks, nvars, por, perm, seq, timing, reset, cycles=2):
             samples.append(dict(shape=shape, file=[repr(l)[:160] for l in fs.files['f1'][:4]]))
         ob(inc2.num_blocks == nblocks, 'count: same number of blocks', None)
         if inc2.num_blocks != nblocks: return 'count-mismatch'
-        ob(inc2.simulator == inc.simulator, 'flavour: same simulator flavour', None)
+        r = ob(inc2.simulator == inc.simulator, 'flavour: same simulator flavour', None)
+        if r == 'sat' and tr_flavour and not perm:
+            failures[-1]['key'] = 'flavour/toughreact-without-permeability'
+            failures[-1]['what'] = 'a TOUGHREACT-flavoured set whose blocks have no permeabilities is written without them and read back as TOUGH2 (the reader recognises the flavour only by the permeability fields); with timing kept the 6d/6d/3d timing record is then parsed with the 5d/5d/5d layout'
         for b in range(nblocks):
             bi = inc2[b]
             vs, po, ks, ns, na = data[b]
@@ -253,6 +282,7 @@ def shapes(tier):
             dict(nblocks=2, nvars=2, por=True, perm=False, seq=True, timing=True, reset=False),
             dict(nblocks=2, nvars=3, por=False, perm=False, seq=False, timing=False, reset=False, cycles=3),
             dict(nblocks=2, nvars=8, por=True, perm=True, seq=False, timing=True, reset=False),
+            dict(nblocks=1, nvars=2, por=True, perm=False, seq=True, timing=False, reset=True, toughreact=True),
         ]
         return combos
     for nb in (0, 1, 2, 3):
